@@ -36,6 +36,11 @@ fn nest(r: &mut Rng, depth: usize, leaf: Value) -> Value {
 }
 
 fn pick_depth(r: &mut Rng) -> usize {
+    // exploration aid (not used by any registered job): VERIF_DEEP_DEPTH pins the depth
+    if let Some(d) = std::env::var("VERIF_DEEP_DEPTH").ok().and_then(|v| v.parse::<usize>().ok()) {
+        r.next();
+        return d;
+    }
     match r.below(4) {
         0 => 1 + r.below(100),
         1 => 118 + r.below(16),
